@@ -13,6 +13,7 @@ from mc.spaces import split_list
 ID = "C17"
 MANIFEST = {"engine": "E1+E2"}
 SIZES = (0, 1, 2, 3, 5, 7, 9, 10, 12)
+SIZES_T = (0, 1, 2, 3, 4, 5, 6, 7, 8, 9, 10, 11, 12, 13, 15, 17, 20, 25)
 _TIER = ["quick"]
 _SEED = [0]
 
@@ -43,8 +44,11 @@ def make_data(sizes):
 
 
 def size_pairs():
-    out = [[n] for n in SIZES]
-    out += [[a, b] for a in SIZES for b in SIZES if a != b and (a + b) % 3 != 1]
+    S = SIZES_T if _TIER[0] == "thorough" else SIZES
+    out = [[n] for n in S]
+    out += [[a, b] for a in S for b in S if a != b and (a + b) % 3 != 1]
+    if _TIER[0] == "thorough":
+        out += [[a, b, c] for a in (1, 3, 7) for b in (2, 5) for c in (0, 9)]
     return out
 
 
@@ -56,6 +60,8 @@ def units(tier, seed):
     out.append({"stage": "errors"})
     nmax = 4 if tier == "quick" else 5
     shuf = [[n] for n in range(0, nmax + 1)] + [[a, b] for a in range(1, nmax) for b in range(1, nmax)] + [[7], [3, 6]]
+    if tier == "thorough":
+        shuf += [[6], [8], [4, 5], [2, 3, 4], [10], [12]]
     for s in shuf:
         out.append({"stage": "shuffle", "sizes": s})
     return out
@@ -310,13 +316,13 @@ def describe(tier, seed):
     return {
         "technique": "exhaustive small-scope enumeration of (sizes, ratio vector, seed) on the real code vs exact-rational partition oracle; shuffle outcomes by "
                      "exhaustive enumeration of harness-owned RNG answers (stateless DFS)",
-        "rule": "sizes: every single environment in {0,1,2,3,5,7,9,10,12} and unequal pairs; ratio vectors: every composition of 10 into <=4 positive parts /10 (130), "
+        "rule": "sizes: every single environment in {0,1,2,3,5,7,9,10,12} (thorough: 18 sizes up to 25, triples) and unequal pairs; ratio vectors: every composition of 10 into <=4 positive parts /10 (130), "
                 "thirds, sixths, sevenths, ninths, [1], vectors with zero parts - all summing to 1 exactly whatever their float sum; seeds {default, 0, 1, VERIF_SEED}; "
                 "oracle: per environment the multiset of rows over the folds equals the input, fold i<last has round(n*r_i) rows (either rounding at exact ties, only when the "
                 "sizes fit in n), inputs untouched, same call twice identical; 32 erroneous vectors (off by 2e-6 .. 0.5) must raise ValueError; under the owned RNG all "
                 "n! shuffle answers for n<=%d (and pairs of environments), deviation<=2 beyond: folds are the answered order cut consecutively and distinct answers give "
                 "distinct assignments. non-trivial: some n*ratio is not an integer" % (4 if tier == "quick" else 5),
         "exhaustive": True,
-        "bounds": {"sizes": list(SIZES), "shuffle_complete_n": 4 if tier == "quick" else 5},
+        "bounds": {"sizes": list(SIZES_T if tier == "thorough" else SIZES), "shuffle_complete_n": 4 if tier == "quick" else 5},
         "assumptions": ["numpy's shuffle is uniform over permutations (the facade enumerates them all)", "ratio vectors with negative entries are outside the quantifier"],
     }
